@@ -5,6 +5,8 @@ import GrpcModel.Model.GracefulSwitch
     switch <name> <script>            script: - | st:<S> | nsc | nil
     ucc <name|-> <buildscript> <script>    script: - | st:<S> | nsc | err
     reserr | exitidle | close
+    nscb <child>   the child calls NewSubConn from its own goroutine and the parent ClientConn holds the call
+    nsce <sc>      the parent lets the held call that is creating SubConn <sc> return
     st <child> <S> | nsc <child> | scst <sc> <S> | uscs <sc> <S> | scsd <sc> | rn <child> | ua <child> <sc>
 
   answer: `r=<ok|closed|bad|childerr|switcherr> ev=<events>`; events in call order except that the
@@ -36,6 +38,8 @@ def parseOp (fs : List String) : Option Op :=
   | ["close"] => some .close
   | ["st", c, x] => do pure (.st (← c.toNat?) (← ConnState.parse x))
   | ["nsc", c] => do pure (.nsc (← c.toNat?))
+  | ["nscb", c] => do pure (.nscb (← c.toNat?))
+  | ["nsce", sc] => do pure (.nsce (← sc.toNat?))
   | ["scst", sc, x] => do pure (.scst (← sc.toNat?) (← ConnState.parse x))
   | ["uscs", sc, x] => do pure (.uscs (← sc.toNat?) (← ConnState.parse x))
   | ["scsd", sc] => do pure (.scsd (← sc.toNat?))
@@ -49,6 +53,7 @@ def showEv : Ev → String
                  else s!"push:{o}:{b.state.letter}:{b.picker}"
   | .build i => s!"b{i}" | .closeChild i => s!"x{i}" | .sd sc => s!"sd{sc}"
   | .newSc sc o => s!"nsc{sc}:{o}" | .nscErr i => s!"nscerr{i}" | .ucc i => s!"ucc{i}"
+  | .nscHeld sc o => s!"held{sc}:{o}"
   | .resErr i => s!"re{i}" | .exitIdle i => s!"ei{i}"
   | .scListen i sc x => s!"scl{i}:{sc}:{x.letter}" | .uscs i sc x => s!"uscs{i}:{sc}:{x.letter}"
   | .resolveNow => "rn" | .updAddr sc => s!"ua{sc}"
@@ -91,7 +96,10 @@ def parseEv (cur : Nat) (s : String) : Option Ev :=
     if a.startsWith "scl" then do pure (.scListen (← natAfter a "scl") (← b.toNat?) (← ConnState.parse c))
     else if a.startsWith "uscs" then do pure (.uscs (← natAfter a "uscs") (← b.toNat?) (← ConnState.parse c))
     else none
-  | [a, b] => if a.startsWith "nsc" then do pure (.newSc (← natAfter a "nsc") (← b.toNat?)) else none
+  | [a, b] =>
+    if a.startsWith "nsc" then do pure (.newSc (← natAfter a "nsc") (← b.toNat?))
+    else if a.startsWith "held" then do pure (.nscHeld (← natAfter a "held") (← b.toNat?))
+    else none
   | [a] =>
     if a = "rn" then some .resolveNow
     else if a.startsWith "nscerr" then (natAfter a "nscerr").map Ev.nscErr
@@ -147,6 +155,9 @@ def monitor (d : DSt) (s' : St) (op : Op) (impl : String) : Option (Nat × BStat
       else if !(retiredClosed d.s s' evs) then "VIOL a policy was dropped without being closed, or a SubConn it created was not shut down"
       else if !(gracefulOk s' pushed) then "VIOL the channel does not have the latest state of the policy in use"
       else match op with
+        | .nsce sc =>
+          if lateSubConnOk d.s sc evs then "ok"
+          else "VIOL a NewSubConn call returned after its policy was closed or superseded: the SubConn must be shut down and not handed to the policy"
         | .switchTo _ _ =>
           -- repeated switch: a replaced pending policy is closed on the spot
           match d.s.pending with
@@ -162,6 +173,7 @@ def step (d : DSt) (fs : List String) (impl : String) : DSt × String × String 
     -- ops naming a child / SubConn that was never created are rejected by the harness
     let okIds : Bool := match op with
       | .st c _ => known d.s c | .nsc c => known d.s c | .rn c => known d.s c
+      | .nscb c => known d.s c | .nsce sc => d.s.inflight.any (·.1 = sc)
       | .ua c sc => known d.s c && decide (1 ≤ sc ∧ sc ≤ d.s.scSerial)
       | .scst sc _ => decide (1 ≤ sc ∧ sc ≤ d.s.scSerial) | .uscs sc _ => decide (1 ≤ sc ∧ sc ≤ d.s.scSerial)
       | .scsd sc => decide (1 ≤ sc ∧ sc ≤ d.s.scSerial)
